@@ -50,6 +50,15 @@ CLAIMS = {
          "completions, tagged items, terminal, panic/hang) with the model and judges it with the extracted predicates (limit, grammar, "
          "outer order, completion exactly when done / no starvation). PARTIAL: 'every inner item exactly once in its own order' is "
          "established by the full-trace correspondence, not by a separate theorem.", "DESIGN.md section 5 C05"),
+ "C19": ("Theorems on the scheduler bookkeeping model (Remote::poll, the delay/timer stages of Scheduler::schedule, RepeatTask, "
+         "TaskHandle) for one task followed through EVERY sequence of polls, clock advances, cancellations and queries: C19_once_at_most_once, "
+         "C19_never_before_delay, C19_repeat_ticks (consecutive sequence numbers, first tick >= one period after scheduling, later ticks >= "
+         "one period apart, none after the function declined), C19_quiet_after_cancel_or_closed (never runs after unsubscribe(), and a handle "
+         "reports closed only when the task cannot act). Each run schedules raw OnceTask / RepeatTask / subscribing tasks on the real "
+         "Scheduler::schedule through the crate's hook scheduler under a virtual clock: every label sequence <= 6 for one task of each of 7 "
+         "kinds plus 40k random multi-task interleavings; full trace compared with the model and judged by the extracted predicate raw_ok. "
+         "PARTIAL: 'is not still running when unsubscribe() returns' across threads is not modelled (single-threaded polls only); the real "
+         "LocalPool/ThreadPool are represented by the choice of poll labels.", "DESIGN.md section 5 C19"),
 }
 
 checks = []
